@@ -939,7 +939,7 @@ namespace
         std::vector<std::string> kinds = { "single", "single2", "multi", "pflood", "mst:k:c", "gsnap", "esnap" };
         if (th)
             kinds.push_back("gesnap");
-        auto progs = all_programs(4, kinds);
+        auto progs = all_programs(th ? 5 : 4, kinds);
         ctx.rep.bounds["c20_programs"] = std::to_string(progs.size());
         for (auto& g : grids)
         {
